@@ -45,16 +45,25 @@ namespace c19
             s[j] = alpha[i % k];
         return s;
     }
-    static inline int enum_maxlen() { return vf::thorough() ? 8 : 6; }
+    // quick: every string of length <= 6; thorough: <= 8 for the cheap routine families (split/join/trim,
+    // split_cmdargs, creader), <= 7 for the expensive ones (memmem, replace, paths, shell)
+    static inline int enum_maxlen(bool cheap = true) { return vf::thorough() ? (cheap ? 8 : 7) : 6; }
     static inline uint64_t enum_batch() { return vf::thorough() ? 6561 : 729; }
-    static inline uint64_t enum_cases() { return (nstrings(enum_maxlen()) + enum_batch() - 1) / enum_batch(); }
-    template <class F> static inline void enum_run(uint64_t idx, F f)
+    static inline uint64_t enum_cases(bool cheap = true) { return (nstrings(enum_maxlen(cheap)) + enum_batch() - 1) / enum_batch(); }
+    template <class F> static inline void enum_run(uint64_t idx, F f, bool cheap = true)
     {
-        uint64_t lo = idx * enum_batch(), hi = lo + enum_batch(), tot = nstrings(enum_maxlen());
+        uint64_t lo = idx * enum_batch(), hi = lo + enum_batch(), tot = nstrings(enum_maxlen(cheap));
         if (hi > tot)
             hi = tot;
         for (uint64_t i = lo; i < hi; i++)
             f(nth(i));
+    }
+    static inline void enum_bulk(uint64_t idx, bool cheap = true)
+    {
+        uint64_t lo = idx * enum_batch(), hi = lo + enum_batch(), tot = nstrings(enum_maxlen(cheap));
+        if (hi > tot)
+            hi = tot;
+        vf::count_bulk(hi - lo, lo == 0 ? hi - lo - 1 : hi - lo);
     }
 
     // the two placements of DESIGN §2: 0 = extent ends at the end of the block (slack on the left),
